@@ -618,6 +618,20 @@ def list_method(ex, ref, ho, name, args, kwargs):
     if name == 'reverse' and ho.items is not None:
         w().items.reverse()
         return None
+    if name == 'sort' and ho.items is not None and len(ho.items) <= 4 and not args and set(kwargs) <= {'key'}:
+        # short concrete spine, symbolic keys: stable insertion sort (the result CPython's stable sort gives), one
+        # case split per comparison; the key function is called once per element, in list order, as CPython does
+        keyf = kwargs.get('key')
+        items = list(ho.items)
+        keys = [ex.call(keyf, [ex.wrap(x, ref)], {}) if keyf is not None else ex.wrap(x, ref) for x in items]
+        order = list(range(len(items)))
+        for i in range(1, len(order)):
+            j = i
+            while j > 0 and ex.branch(ex.truth(ex.compare_op(ast.Lt(), keys[order[j]], keys[order[j - 1]]))):
+                order[j], order[j - 1] = order[j - 1], order[j]
+                j -= 1
+        w().items[:] = [items[k] for k in order]
+        return None
     raise Unsupported(f'list.{name}')
 
 
